@@ -7,6 +7,11 @@
 
 mod c01;
 mod c02;
+mod c03;
+mod c04;
+mod c05;
+mod c10;
+mod fixture;
 mod core;
 mod evalcommon;
 mod exec;
@@ -21,7 +26,7 @@ mod workload;
 use crate::core::{Property, Tier};
 
 fn registry() -> Vec<Property> {
-    vec![c01::PROP, c02::PROP]
+    vec![c01::PROP, c02::PROP, c03::PROP, c04::PROP, c05::PROP, c10::PROP]
 }
 
 fn find(id: &str) -> Property {
